@@ -37,6 +37,7 @@ def gen_value(rng, allow_semicolon=True):
 DEFAULT_PROFILE = {
     "put": 30, "post": 5, "delete": 10, "mk": 4, "delcoll": 2, "proppatch": 6, "restart": 3,
     "lock": 2, "get": 4, "multiget": 4, "reupload": 4,
+    "fault": 0.0,      # probability that a PUT/DELETE runs with an injected ENOSPC
     "cond": 0.35,      # probability that a PUT/DELETE carries a conditional header
     "invalid": 0.12,   # probability that a PUT body is from an invalid class
     "len": 24,
@@ -166,7 +167,8 @@ def run_random_session(seed, prof, frontend="wsgi", prefix="/", backend="tree", 
                         im = rng.choice(COND_CLASSES)
                     else:
                         inm = rng.choice(COND_CLASSES)
-                s.put(c, n, data, im=im, inm=inm, valid=valid)
+                fault = rng.randint(1, 14) if rng.random() < prof["fault"] else 0
+                s.put(c, n, data, im=im, inm=inm, valid=valid, fault=fault)
             elif op == "post":
                 usevcf = c == "ab1"
                 data, valid = rng.choice(vcf if usevcf else ics)
@@ -175,7 +177,8 @@ def run_random_session(seed, prof, frontend="wsgi", prefix="/", backend="tree", 
                 names = sorted(live) if live and rng.random() < 0.75 else ICS_NAMES + VCF_NAMES
                 n = rng.choice(names)
                 im = rng.choice(COND_CLASSES) if rng.random() < prof["cond"] else None
-                s.delete(c, n, im=im)
+                fault = rng.randint(1, 10) if rng.random() < prof["fault"] else 0
+                s.delete(c, n, im=im, fault=fault)
             elif op == "mk":
                 k = kinds[c] if rng.random() < 0.7 else rng.choice(["calendar", "addressbook", "other"])
                 props = ()
@@ -215,10 +218,17 @@ def run_random_session(seed, prof, frontend="wsgi", prefix="/", backend="tree", 
                 s.get(c, n, inm=rng.choice(COND_CLASSES + [None]), head=rng.random() < 0.3)
             elif op == "multiget":
                 items = []
-                for _k in range(rng.randint(1, 5)):
-                    cls = rng.choice(["live", "live", "missing", "dup", "enc", "abs", "othercoll",
-                                      "outside", "coll", "malformed"])
-                    if cls in ("live", "dup", "enc", "abs") and live:
+                for _k in range(rng.randint(1, 6)):
+                    cls = rng.choice(["live", "live", "live", "missing", "dup", "enc", "abs", "othercoll",
+                                      "othercoll", "outside", "coll", "malformed"])
+                    others = [(oc, sorted(a["members"])) for oc, a in
+                              (s.events[-1]["audit"]["colls"].items() if s.events else [])
+                              if oc != c and a["members"]]
+                    if cls == "othercoll" and others and rng.random() < 0.8:
+                        oc, names = rng.choice(others)
+                        cls = "othercoll:" + oc
+                        n = rng.choice(names)
+                    elif cls in ("live", "dup", "enc", "abs") and live:
                         n = rng.choice(sorted(live))
                     elif cls == "coll":
                         n = ""
